@@ -381,9 +381,9 @@ func specIsRejectErr(err error) bool { _, ok := err.(*RejectError); return ok }
 //@ ensures [oneload]  zzCalls("atomic.Load:cur") == 1
 //@ ensures [t3order]  zzCalls("internal/pool.GetTimer") <= 1 && (zzCalls("internal/pool.GetTimer") == 1 ==>
 //@                    zzCalls("hsms.(*connection).writeFrame") == 1 && zzSeq("hsms.(*connection).writeFrame") < zzSeq("internal/pool.GetTimer"))
-//@ ensures [waits-caller] zzCalls("select.arm:any") >= 1 ==> zzArmedCtx(callerCtx)
-//@ ensures [waits-epoch]  zzCalls("select.arm:any") >= 1 ==> zzArmedCtx(zzRet[*epoch]("atomic.Load:cur").ctx)
-//@ ensures [waits-reply]  zzCalls("select.arm:any") >= 1 ==> zzArmedChan(zzRet[chan replyResult]("hsms.(replyRegistry).register"))
+//@ waits [caller] callerCtx
+//@ waits [epoch]  zzRet[*epoch]("atomic.Load:cur").ctx
+//@ waits [reply]  zzRet[chan replyResult]("hsms.(replyRegistry).register")
 //@ ensures [regorder] zzCalls("hsms.(replyRegistry).register") == 1 && zzCalls("hsms.(*connection).writeFrame") == 1 ==>
 //@                    zzSeq("hsms.(replyRegistry).register") < zzSeq("hsms.(*connection).writeFrame")
 //@ ensures [dereg]    zzCalls("hsms.(replyRegistry).register") == zzCalls("hsms.(replyRegistry).deregister") && zzCalls("hsms.(replyRegistry).register") <= 1
